@@ -8,8 +8,10 @@ import (
 	"math"
 	"path"
 	"path/filepath"
+	"strings"
 
 	"reduction.dev/reduction/dkv/recovery"
+	"reduction.dev/reduction/dkv/storage"
 	"reduction.dev/reduction/proto/snapshotpb"
 	"reduction.dev/reduction/storage/locations"
 )
@@ -57,7 +59,10 @@ func CreateSavepointArtifact(fs locations.StorageLocation, savepointsPath string
 
 // Copy files from a savepoint into place to be read as checkpoints.
 func RestoreCheckpointFromSavepointArtifact(fs locations.StorageLocation, savepointURI string, jobCheckpoint *snapshotpb.JobCheckpoint) error {
-	spDir := filepath.Dir(savepointURI)
+	// The savepoint URI may have a scheme (s3://) that path cleaning would
+	// mangle, so only the last path element is cut off and paths are joined
+	// scheme-aware.
+	spDir := savepointURI[:max(strings.LastIndex(savepointURI, "/"), 0)]
 
 	for _, opCkpt := range jobCheckpoint.GetOperatorCheckpoints() {
 		opID, baseFileName, err := parseDKVURI(opCkpt.DkvFileUri)
@@ -66,7 +71,7 @@ func RestoreCheckpointFromSavepointArtifact(fs locations.StorageLocation, savepo
 		}
 
 		// Read the checkpoints data
-		checkpointsPath := filepath.Join(spDir, "dkv", opID, baseFileName)
+		checkpointsPath := storage.Join(spDir, "dkv", opID, baseFileName)
 		cpData, err := fs.Read(checkpointsPath)
 		if err != nil {
 			return fmt.Errorf("reading checkpoints file (%s): %v", checkpointsPath, err)
@@ -86,7 +91,7 @@ func RestoreCheckpointFromSavepointArtifact(fs locations.StorageLocation, savepo
 			}
 
 			// Source is a file referenced by a DKV checkpoint that's been copied to the savepoint directory
-			src := filepath.Join(spDir, "dkv", opPrefix, baseFileName)
+			src := storage.Join(spDir, "dkv", opPrefix, baseFileName)
 			if err := fs.Copy(src, file); err != nil {
 				return err
 			}
